@@ -2,12 +2,16 @@ package c19
 
 import (
 	"context"
+	"errors"
 	"fmt"
+	"io"
+	"net"
 	"os"
 	"strings"
 	"testing"
 	"time"
 
+	"github.com/zeromicro/go-zero/core/breaker"
 	"github.com/zeromicro/go-zero/core/logx"
 	"github.com/zeromicro/go-zero/core/stat"
 	"github.com/zeromicro/go-zero/core/stores/redis"
@@ -50,6 +54,14 @@ import (
 //
 // Instance ids are generated inside go-zero; they are learnt from the commands the server
 // executed, are only compared for equality and never reach a verdict text, an Ev() or a draw.
+//
+// Generator dimensions (every first draw value is the plain choice): 1-6 instances, instances
+// that are abandoned and replaced by a fresh RedisLock mid-run, key spellings (case / blank /
+// prefix / long / binary variants of one another), SetExpire values 0, 1-5 and (wide runs) up to
+// beyond 2^32 ms, chains of re-acquires by the holder, clock advances to the lease boundary, to
+// the bare "seconds" mark and to half of the lease, caller contexts (none, explicit Background,
+// value-carrying, timeouts, far / past deadlines, cancelled before and in the middle of the
+// call), transport faults incl. error replies of several identities, store constructors.
 
 const ms = time.Millisecond
 
@@ -84,7 +96,8 @@ type execRec struct {
 }
 
 type keyState struct {
-	name   string
+	name   string        // the key as handed to NewRedisLock (may be long / binary: never printed raw)
+	label  string        // printable name for verdicts and traces
 	holder int           // instance index of the last grant that is neither released nor known expired; -1 none
 	expiry time.Duration // of holder's grant
 	inCS   []*client
@@ -106,8 +119,16 @@ type client struct {
 	from, until time.Duration
 	stale       bool // the most recent grant ended by expiry (not by release)
 
+	everGranted, releasedSinceGrant bool
+
 	csDeadline time.Duration
 	nAcq, nRel int
+
+	// caller context that is cancelled when the cancelAt-th command of the current call leaves the client
+	cancelAt, sent int
+	cancel         context.CancelFunc
+	store          *redis.Redis
+	storeKind      int
 }
 
 type world struct {
@@ -119,7 +140,10 @@ type world struct {
 	void     bool
 	faulty   bool
 	overstay bool
+	wide     bool // SetExpire also draws long leases (minutes .. beyond 2^32 ms)
 	log      []string
+	newStore func(kind int) *redis.Redis
+	maxSec   int
 }
 
 func (w *world) fail(class, format string, a ...any) {
@@ -182,13 +206,25 @@ func (w *world) onExec(e *simredis.Exec) {
 		return
 	}
 	r := w.r
-	cl := w.byTask[e.Cmd.Task]
-	if cl == nil || cl.op == opNone {
-		r.EngineError("c19: script executed by task %d which is not inside a lock operation", e.Cmd.Task)
-		return
-	}
 	a := e.Cmd.Args
 	rep := string(e.Reply)
+	cl := w.byTask[e.Cmd.Task]
+	if cl == nil || cl.op == opNone {
+		// The lock API is synchronous: a script of an instance runs inside that instance's
+		// Acquire/Release call, on the caller's task.  Anything else (a renewal loop, a release
+		// finished in the background) changes or ends a lease outside any call.
+		if w.void {
+			return
+		}
+		for _, c := range w.cls {
+			if len(a) >= 5 && c.idKnown && c.id == a[4] && c.k.name == a[3] {
+				w.fail("lock-script-outside-call", "a lock script with the id of instance %d was executed on %s at %v by a task that is not inside an Acquire/Release call of that instance (%d words, answer %q): the lease of an instance may only change through its own calls", c.idx, c.k.label, e.At, len(a), w.scrub(rep))
+				return
+			}
+		}
+		w.fail("lock-script-by-unknown-caller", "a script (%d words) was executed at %v by task %d, which is not inside any Acquire/Release call of the harness, with an id no instance has used", len(a), e.At, e.Cmd.Task)
+		return
+	}
 	if strings.HasPrefix(rep, "-NOSCRIPT") {
 		r.Probe("noscript-fallback")
 		return
@@ -203,7 +239,7 @@ func (w *world) onExec(e *simredis.Exec) {
 	}
 	k := cl.k
 	if a[3] != k.name {
-		w.fail("script-wrong-key", "instance %d on %s ran its script on key %q", cl.idx, k.name, a[3])
+		w.fail("script-wrong-key", "instance %d on %s ran its script on another key: %s", cl.idx, k.label, show(a[3]))
 		return
 	}
 	id := a[4]
@@ -238,6 +274,14 @@ func (w *world) onExec(e *simredis.Exec) {
 	}
 }
 
+// show prints a key spelling safely (quoted, shortened).
+func show(key string) string {
+	if len(key) > 48 {
+		return fmt.Sprintf("%q...(%d bytes)...%q", key[:16], len(key), key[len(key)-8:])
+	}
+	return fmt.Sprintf("%q", key)
+}
+
 func opName(op int) string { return [...]string{"none", "Acquire", "Release"}[op] }
 
 func lostReply(f simredis.Kind) bool {
@@ -269,22 +313,31 @@ func (w *world) execAcquire(cl *client, e *simredis.Exec, now time.Duration, rep
 	w.settle(k, now)
 	L := lease(cl)
 	cl.execs = append(cl.execs, execRec{granted: granted, at: now, fault: e.Fault})
+	for _, o := range w.cls {
+		if o != cl && o.k == k && o.op == opAcquire {
+			r.Probe("acquire-executed-while-another-acquire-on-the-key-is-in-flight")
+			break
+		}
+	}
 	g := int64(0)
 	if granted {
 		g = 1
 	}
 	r.Ev("exec-acquire", int64(cl.idx), g)
 	if r.Tracing() {
-		r.Logf("  server@%v: acquire-script by instance %d on %s -> granted=%v (model holder %d, expiry %v, fault %v)", now, cl.idx, k.name, granted, k.holder, k.expiry, e.Fault)
+		r.Logf("  server@%v: acquire-script by instance %d on %s -> granted=%v (model holder %d, expiry %v, fault %v)", now, cl.idx, k.label, granted, k.holder, k.expiry, e.Fault)
 	}
 	if !granted {
 		switch {
 		case k.holder == -1:
-			w.fail("acquire-denied-while-free", "instance %d Acquire on %s at %v was denied although nobody holds the key (last lease ended, or key released)", cl.idx, k.name, now)
+			w.fail("acquire-denied-while-free", "instance %d Acquire on %s at %v was denied although nobody holds the key (last lease ended, or key released)", cl.idx, k.label, now)
 		case k.holder == cl.idx:
-			w.fail("reacquire-denied-to-holder", "instance %d Acquire on %s at %v was denied although it is the holder itself (lease until %v)", cl.idx, k.name, now, k.expiry)
+			w.fail("reacquire-denied-to-holder", "instance %d Acquire on %s at %v was denied although it is the holder itself (lease until %v)", cl.idx, k.label, now, k.expiry)
 		case certainlyHeld(now, k.expiry):
 			r.Probe("denied-while-held")
+			if cl.stale {
+				r.Probe("expired-holder-denied-while-new-holder")
+			}
 		default:
 			r.Probe("denied-inside-expiry-millisecond")
 		}
@@ -296,7 +349,7 @@ func (w *world) execAcquire(cl *client, e *simredis.Exec, now time.Duration, rep
 			continue
 		}
 		if certainlyHeld(now, o.until) {
-			w.fail("two-holders", "key %s: instance %d was granted the lock at %v while instance %d holds it since %v with a lease until %v and has not released it", k.name, cl.idx, now, o.idx, o.from, o.until)
+			w.fail("two-holders", "key %s: instance %d was granted the lock at %v while instance %d holds it since %v with a lease until %v and has not released it", k.label, cl.idx, now, o.idx, o.from, o.until)
 		} else {
 			r.Probe("granted-inside-expiry-millisecond")
 		}
@@ -311,16 +364,29 @@ func (w *world) execAcquire(cl *client, e *simredis.Exec, now time.Duration, rep
 	if lostReply(e.Fault) {
 		r.Probe("reply-lost-after-grant")
 	}
+	switch {
+	case L >= (1<<32)*ms:
+		r.Probe("grant-with-lease-beyond-2^32-ms")
+	case L >= (1<<31)*ms:
+		r.Probe("grant-with-lease-beyond-2^31-ms")
+	case L > time.Hour+500*ms:
+		r.Probe("grant-with-lease-longer-than-one-hour")
+	case L > 6*time.Second:
+		r.Probe("grant-with-lease-of-minutes")
+	case cl.seconds == 0:
+		r.Probe("grant-with-zero-seconds")
+	}
 	k.holder, k.expiry = cl.idx, now+L
 	cl.holdActive, cl.from, cl.until, cl.stale = true, now, now+L, false
+	cl.everGranted, cl.releasedSinceGrant = true, false
 	// the store right after the grant
 	mr := w.srv.MR()
 	if v, err := mr.Get(k.name); err != nil || v != id {
-		w.fail("granted-but-key-not-holders", "key %s after the grant to instance %d: stored value is %s (err %v)", k.name, cl.idx, w.who(v), err)
+		w.fail("granted-but-key-not-holders", "key %s after the grant to instance %d: stored value is %s (err %v)", k.label, cl.idx, w.who(v), err)
 		return
 	}
 	if ttl := mr.TTL(k.name); ttl != L {
-		w.fail("lease-length-wrong", "key %s granted to instance %d with seconds=%d: time to live is %v, the lease must be %v", k.name, cl.idx, cl.seconds, ttl, L)
+		w.fail("lease-length-wrong", "key %s granted to instance %d with seconds=%d: time to live is %v, the lease must be %v", k.label, cl.idx, cl.seconds, ttl, L)
 	}
 }
 
@@ -337,20 +403,27 @@ func (w *world) execRelease(cl *client, e *simredis.Exec, now time.Duration) {
 	mr := w.srv.MR()
 	exists := mr.Exists(k.name)
 	val, _ := mr.Get(k.name)
+	switch {
+	case !cl.everGranted:
+		r.Probe("release-by-instance-that-never-acquired")
+	case cl.releasedSinceGrant:
+		r.Probe("release-again-after-successful-release")
+	}
 	if r.Tracing() {
-		r.Logf("  server@%v: release-script by instance %d on %s -> %d (model holder %d, expiry %v, key exists after=%v, fault %v)", now, cl.idx, k.name, n, k.holder, k.expiry, exists, e.Fault)
+		r.Logf("  server@%v: release-script by instance %d on %s -> %d (model holder %d, expiry %v, key exists after=%v, fault %v)", now, cl.idx, k.label, n, k.holder, k.expiry, exists, e.Fault)
 	}
 	switch {
 	case k.holder == cl.idx:
 		held := certainlyHeld(now, k.expiry)
 		if held && n != 1 {
-			w.fail("release-by-holder-returned-0", "instance %d released %s at %v as the current holder (lease until %v) but the script answered 0", cl.idx, k.name, now, k.expiry)
+			w.fail("release-by-holder-returned-0", "instance %d released %s at %v as the current holder (lease until %v) but the script answered 0", cl.idx, k.label, now, k.expiry)
 		}
 		if exists {
-			w.fail("release-by-holder-key-still-present", "instance %d released %s at %v as the current holder (script answered %d) but the key still exists with %s", cl.idx, k.name, now, n, w.who(val))
+			w.fail("release-by-holder-key-still-present", "instance %d released %s at %v as the current holder (script answered %d) but the key still exists with %s", cl.idx, k.label, now, n, w.who(val))
 		}
 		if n == 1 {
 			r.Probe("release-by-holder")
+			cl.releasedSinceGrant = true
 			if now-k.expiry == -ms {
 				r.Probe("release-at-lease-minus-1ms")
 			}
@@ -367,9 +440,9 @@ func (w *world) execRelease(cl *client, e *simredis.Exec, now time.Duration) {
 		if certainlyHeld(now, k.expiry) {
 			if !exists || val != h.id {
 				if late {
-					w.fail("late-release-removed-new-holders-key", "instance %d, whose own lease on %s had expired, called Release at %v: afterwards the key of the new holder instance %d (lease until %v) is gone or changed (exists=%v, value %s)", cl.idx, k.name, now, h.idx, k.expiry, exists, w.who(val))
+					w.fail("late-release-removed-new-holders-key", "instance %d, whose own lease on %s had expired, called Release at %v: afterwards the key of the new holder instance %d (lease until %v) is gone or changed (exists=%v, value %s)", cl.idx, k.label, now, h.idx, k.expiry, exists, w.who(val))
 				} else {
-					w.fail("foreign-release-removed-holders-key", "instance %d, not the holder of %s, called Release at %v: afterwards the key of holder instance %d (lease until %v) is gone or changed (exists=%v, value %s)", cl.idx, k.name, now, h.idx, k.expiry, exists, w.who(val))
+					w.fail("foreign-release-removed-holders-key", "instance %d, not the holder of %s, called Release at %v: afterwards the key of holder instance %d (lease until %v) is gone or changed (exists=%v, value %s)", cl.idx, k.label, now, h.idx, k.expiry, exists, w.who(val))
 				}
 			}
 			if late {
@@ -383,17 +456,17 @@ func (w *world) execRelease(cl *client, e *simredis.Exec, now time.Duration) {
 			h.holdActive, h.stale = false, true
 		}
 		if n != 0 {
-			w.fail("release-by-non-holder-returned-1", "instance %d called Release on %s at %v while instance %d is the holder: script answered 1", cl.idx, k.name, now, h.idx)
+			w.fail("release-by-non-holder-returned-1", "instance %d called Release on %s at %v while instance %d is the holder: script answered 1", cl.idx, k.label, now, h.idx)
 		}
 	default:
 		if cl.stale {
 			r.Probe("late-release-by-expired-holder")
 		}
 		if n != 0 {
-			w.fail("release-of-free-key-returned-1", "instance %d called Release on %s at %v while nobody holds it: script answered 1", cl.idx, k.name, now)
+			w.fail("release-of-free-key-returned-1", "instance %d called Release on %s at %v while nobody holds it: script answered 1", cl.idx, k.label, now)
 		}
 		if exists {
-			w.fail("key-outlives-lease", "key %s exists at %v (value %s) although every grant is released or past its lease", k.name, now, w.who(val))
+			w.fail("key-outlives-lease", "key %s exists at %v (value %s) although every grant is released or past its lease", k.label, now, w.who(val))
 		}
 	}
 }
@@ -412,7 +485,7 @@ func (w *world) checkStore(k *keyState) {
 	if k.holder < 0 {
 		if exists {
 			v, _ := mr.Get(k.name)
-			w.fail("key-outlives-lease", "key %s exists at %v (value %s, ttl %v) although every grant is released or past its lease", k.name, now, w.who(v), mr.TTL(k.name))
+			w.fail("key-outlives-lease", "key %s exists at %v (value %s, ttl %v) although every grant is released or past its lease", k.label, now, w.who(v), mr.TTL(k.name))
 		}
 		return
 	}
@@ -422,12 +495,12 @@ func (w *world) checkStore(k *keyState) {
 	h := w.cls[k.holder]
 	v, _ := mr.Get(k.name)
 	if !exists || v != h.id {
-		w.fail("holders-key-lost", "key %s at %v: instance %d holds it with a lease until %v but the store has exists=%v value %s", k.name, now, h.idx, k.expiry, exists, w.who(v))
+		w.fail("holders-key-lost", "key %s at %v: instance %d holds it with a lease until %v but the store has exists=%v value %s", k.label, now, h.idx, k.expiry, exists, w.who(v))
 		return
 	}
 	d := mr.TTL(k.name) - (k.expiry - now)
 	if d <= -ms || d >= ms {
-		w.fail("lease-length-wrong", "key %s at %v: time to live %v, the lease of instance %d runs until %v (%v left)", k.name, now, mr.TTL(k.name), h.idx, k.expiry, k.expiry-now)
+		w.fail("lease-length-wrong", "key %s at %v: time to live %v, the lease of instance %d runs until %v (%v left)", k.label, now, mr.TTL(k.name), h.idx, k.expiry, k.expiry-now)
 	}
 }
 
@@ -446,20 +519,86 @@ func weighted(t *simrt.Tape, w ...int) int {
 	return 0
 }
 
+type ctxKey struct{}
+
 // drawCtx: 0 = the plain method (context.Background inside go-zero).
-func (w *world) drawCtx() (context.Context, context.CancelFunc, string) {
-	t := w.r.Tape
-	switch weighted(t, 6, 2, 1) {
+func (w *world) drawCtx(cl *client) (context.Context, context.CancelFunc, string) {
+	t, r := w.r.Tape, w.r
+	cl.cancelAt, cl.sent, cl.cancel = 0, 0, nil
+	switch weighted(t, 14, 4, 1, 2, 2, 1) {
 	case 1:
-		d := []time.Duration{10 * time.Second, 3500 * ms, time.Second, 50 * ms, ms}[t.Intn(5)]
+		d := []time.Duration{10 * time.Second, 3500 * ms, time.Second, 50 * ms, ms, time.Hour}[t.Intn(6)]
 		ctx, c := context.WithTimeout(context.Background(), d)
+		if d == time.Hour {
+			r.Probe("ctx-far-deadline")
+		}
 		return ctx, c, fmt.Sprintf("Ctx[timeout %v]", d)
 	case 2:
 		ctx, c := context.WithCancel(context.Background())
 		c()
 		return ctx, c, "Ctx[already cancelled]"
+	case 3:
+		// the non-plain entry point with a context that never ends: explicit Background / TODO,
+		// bare or carrying a value
+		r.Probe("ctx-explicit-background")
+		switch t.Intn(3) {
+		case 1:
+			return context.TODO(), func() {}, "Ctx[TODO]"
+		case 2:
+			return context.WithValue(context.Background(), ctxKey{}, "v"), func() {}, "Ctx[Background+value]"
+		}
+		return context.Background(), func() {}, "Ctx[Background]"
+	case 4:
+		// cancelled by the caller in the middle of the call: when the n-th command of this call
+		// (handshake of a new connection included) leaves the client
+		ctx, c := context.WithCancel(context.Background())
+		if t.Bool() {
+			ctx = context.WithValue(ctx, ctxKey{}, "v")
+		}
+		cl.cancelAt, cl.cancel = t.Range(1, 3), c
+		return ctx, c, fmt.Sprintf("Ctx[cancelled at command %d of the call]", cl.cancelAt)
+	case 5:
+		// deadline already over when the call is made (DeadlineExceeded, not Canceled)
+		r.Probe("ctx-deadline-in-the-past")
+		ctx, c := context.WithDeadline(context.Background(), time.Now().Add(-time.Duration(t.Range(0, 1000))*ms))
+		return ctx, c, "Ctx[deadline in the past]"
 	}
 	return nil, func() {}, ""
+}
+
+// onSend runs on the sending task when a command leaves the client.
+func (w *world) onSend(c *simredis.Cmd) {
+	cl := w.byTask[c.Task]
+	if cl == nil || cl.op == opNone || cl.cancelAt == 0 {
+		return
+	}
+	cl.sent++
+	if cl.sent == cl.cancelAt {
+		w.r.Probe("ctx-cancelled-mid-call")
+		cl.cancel()
+	}
+}
+
+// ctxErrProbe records which error identity the caller saw (coverage only).
+func (w *world) errProbe(err error) {
+	var ne net.Error
+	var re interface{ RedisError() }
+	switch {
+	case errors.Is(err, context.Canceled):
+		w.r.Probe("error-is-context-canceled")
+	case errors.Is(err, context.DeadlineExceeded):
+		w.r.Probe("error-is-context-deadline-exceeded")
+	case errors.Is(err, breaker.ErrServiceUnavailable):
+		w.r.Probe("error-is-breaker-open")
+	case errors.As(err, &re):
+		w.r.Probe("error-is-server-error-reply")
+	case errors.As(err, &ne) && ne.Timeout():
+		w.r.Probe("error-is-network-timeout")
+	case errors.Is(err, io.EOF) || errors.As(err, &ne):
+		w.r.Probe("error-is-connection-failure")
+	default:
+		w.r.Probe("error-is-something-else")
+	}
 }
 
 func b2i(b bool) int64 {
@@ -480,7 +619,7 @@ func (w *world) note(cl *client, format string, a ...any) {
 // acquire performs one Acquire/AcquireCtx and checks the client-visible result.
 func (w *world) acquire(cl *client) (ok bool, err error, inv, L time.Duration) {
 	r := w.r
-	ctx, cancel, how := w.drawCtx()
+	ctx, cancel, how := w.drawCtx(cl)
 	cl.op, cl.execs = opAcquire, cl.execs[:0]
 	inv, L = r.Elapsed(), lease(cl)
 	cl.nAcq++
@@ -488,9 +627,15 @@ func (w *world) acquire(cl *client) (ok bool, err error, inv, L time.Duration) {
 		ok, err = cl.lock.Acquire()
 	} else {
 		ok, err = cl.lock.AcquireCtx(ctx)
+		if err == nil && ctx.Err() != nil {
+			r.Probe("call-returned-no-error-although-ctx-ended-mid-call")
+		}
 	}
 	cancel()
-	cl.op = opNone
+	cl.op, cl.cancelAt = opNone, 0
+	if err != nil {
+		w.errProbe(err)
+	}
 	n := len(cl.execs)
 	r.Ev("acquire", int64(cl.idx), b2i(ok), b2i(err != nil), int64(n))
 	w.note(cl, "Acquire%s seconds=%d -> (%v, err=%v) server executions=%d", how, cl.seconds, ok, err != nil, n)
@@ -508,9 +653,9 @@ func (w *world) acquire(cl *client) (ok bool, err error, inv, L time.Duration) {
 	} else if n == 0 {
 		w.fail("acquire-result-without-execution", "instance %d Acquire returned (%v, nil) although the server executed no script for it", cl.idx, ok)
 	} else if last := cl.execs[n-1]; ok && !last.granted {
-		w.fail("acquire-true-but-server-denied", "instance %d Acquire on %s returned true, but the script it ran at %v was denied (the key is held by somebody else)", cl.idx, cl.k.name, last.at)
+		w.fail("acquire-true-but-server-denied", "instance %d Acquire on %s returned true, but the script it ran at %v was denied (the key is held by somebody else)", cl.idx, cl.k.label, last.at)
 	} else if !ok && last.granted {
-		w.fail("acquire-false-but-server-granted", "instance %d Acquire on %s returned (false, nil), but the script it ran at %v was granted", cl.idx, cl.k.name, last.at)
+		w.fail("acquire-false-but-server-granted", "instance %d Acquire on %s returned (false, nil), but the script it ran at %v was granted", cl.idx, cl.k.label, last.at)
 	}
 	w.checkStore(cl.k)
 	return
@@ -518,7 +663,7 @@ func (w *world) acquire(cl *client) (ok bool, err error, inv, L time.Duration) {
 
 func (w *world) release(cl *client) {
 	r := w.r
-	ctx, cancel, how := w.drawCtx()
+	ctx, cancel, how := w.drawCtx(cl)
 	cl.op, cl.execs = opRelease, cl.execs[:0]
 	cl.nRel++
 	var ok bool
@@ -529,7 +674,10 @@ func (w *world) release(cl *client) {
 		ok, err = cl.lock.ReleaseCtx(ctx)
 	}
 	cancel()
-	cl.op = opNone
+	cl.op, cl.cancelAt = opNone, 0
+	if err != nil {
+		w.errProbe(err)
+	}
 	n := len(cl.execs)
 	r.Ev("release", int64(cl.idx), b2i(ok), b2i(err != nil), int64(n))
 	w.note(cl, "Release%s -> (%v, err=%v) server executions=%d", how, ok, err != nil, n)
@@ -544,9 +692,9 @@ func (w *world) release(cl *client) {
 	} else if n == 0 {
 		w.fail("release-result-without-execution", "instance %d Release returned (%v, nil) although the server executed no script for it", cl.idx, ok)
 	} else if last := cl.execs[n-1]; ok && last.n != 1 {
-		w.fail("release-true-but-script-0", "instance %d Release on %s returned true, but the script it ran at %v answered 0 (it was not the holder)", cl.idx, cl.k.name, last.at)
+		w.fail("release-true-but-script-0", "instance %d Release on %s returned true, but the script it ran at %v answered 0 (it was not the holder)", cl.idx, cl.k.label, last.at)
 	} else if !ok && last.n == 1 {
-		w.fail("release-false-but-script-1", "instance %d Release on %s returned (false, nil), but the script it ran at %v removed its key", cl.idx, cl.k.name, last.at)
+		w.fail("release-false-but-script-1", "instance %d Release on %s returned (false, nil), but the script it ran at %v removed its key", cl.idx, cl.k.label, last.at)
 	} else if !ok {
 		for _, x := range cl.execs[:n-1] {
 			if x.n == 1 {
@@ -562,18 +710,36 @@ func (w *world) release(cl *client) {
 // think: 0 = none.
 func (w *world) think(cl *client) {
 	t, r := w.r.Tape, w.r
-	switch weighted(t, 5, 2, 2, 3) {
+	switch weighted(t, 5, 2, 2, 3, 2) {
 	case 1:
 		r.Sleep(time.Duration(t.Range(1, 50)) * ms)
 	case 2:
 		r.Sleep(time.Duration(t.Range(100, 3000)) * ms)
+	case 4:
+		// rendezvous: wait for the next common instant (multiples of 250 ms), so that clients whose
+		// clocks have drifted apart call at the same moment again
+		const grid = 250 * ms
+		r.Probe("think-to-common-instant")
+		r.Sleep(grid - r.Elapsed()%grid)
 	case 3:
-		// land exactly around the end of the current lease on the key
+		// land exactly around a landmark of the current lease on the key: its end (0), the end of
+		// the bare configured seconds (500 ms before the end), the middle of the lease
 		k := cl.k
 		off := time.Duration(t.Intn(3)-1) * ms // -1ms, 0, +1ms
 		if k.holder >= 0 {
-			if d := k.expiry + off - r.Elapsed(); d > 0 {
-				r.Probe("think-to-lease-boundary")
+			target, probe := k.expiry+off, "think-to-lease-boundary"
+			switch weighted(t, 6, 2, 1) {
+			case 1:
+				target, probe = k.expiry-500*ms+off, "think-to-seconds-mark"
+			case 2:
+				from := w.cls[k.holder].from
+				target, probe = from+(k.expiry-from)/2+off, "think-to-half-lease"
+			}
+			if d := target - r.Elapsed(); d > 0 {
+				r.Probe(probe)
+				if d > time.Hour {
+					r.Probe("clock-advance-longer-than-one-hour")
+				}
 				r.Sleep(d)
 				return
 			}
@@ -633,7 +799,7 @@ func (w *world) critical(cl *client, inv, L time.Duration) {
 	// enter
 	for _, o := range k.inCS {
 		if o.csDeadline > now {
-			w.fail("critical-section-overlap", "key %s: instance %d entered its critical section at %v (Acquire returned true) while instance %d is still inside its own, within the lease it was granted (its deadline %v)", k.name, cl.idx, now, o.idx, o.csDeadline)
+			w.fail("critical-section-overlap", "key %s: instance %d entered its critical section at %v (Acquire returned true) while instance %d is still inside its own, within the lease it was granted (its deadline %v)", k.label, cl.idx, now, o.idx, o.csDeadline)
 		} else {
 			r.Probe("other-client-stalled-past-its-lease")
 		}
@@ -659,33 +825,97 @@ func (w *world) critical(cl *client, inv, L time.Duration) {
 	}
 }
 
+// drawSeconds: 0 = one second.  Wide runs also draw leases of minutes, hours and values whose
+// millisecond count does not fit 31 / 32 bits.
+func (w *world) drawSeconds() int {
+	t, r := w.r.Tape, w.r
+	wd := 0
+	if w.wide {
+		wd = 3
+	}
+	switch weighted(t, 8, 2, wd, wd) {
+	case 1:
+		return 0
+	case 2:
+		r.Probe("setexpire-minutes")
+		return []int{10, 30, 60, 90, 300, 1800}[t.Intn(6)]
+	case 3:
+		r.Probe("setexpire-hours-and-beyond")
+		return []int{3600, 3601, 7200, 86400, 604800, 2147483, 2147484, 4294967, 4294968, 10000000}[t.Intn(10)]
+	}
+	return t.Range(1, 5)
+}
+
 func (w *world) setExpire(cl *client) {
-	s := w.r.Tape.Range(1, 5)
+	s := w.drawSeconds()
+	if s == 0 {
+		if cl.seconds > 0 {
+			w.r.Probe("setexpire-zero-after-nonzero")
+		} else {
+			w.r.Probe("setexpire-zero")
+		}
+	} else if s < cl.seconds {
+		w.r.Probe("setexpire-shorter-than-before")
+	}
 	cl.lock.SetExpire(s)
 	cl.seconds = s
+	if s > w.maxSec {
+		w.maxSec = s
+	}
 	w.r.Ev("setexpire", int64(cl.idx), int64(s))
 	w.note(cl, "SetExpire(%d)", s)
 }
 
+const maxInstances = 9
+
+// replace: the client drops its RedisLock object (whatever it holds is left to expire) and
+// continues with a fresh one on the same key, as a restarted process would.
+func (w *world) replace(old *client) *client {
+	t, r := w.r.Tape, w.r
+	w.settle(old.k, r.Elapsed())
+	store, kind := old.store, old.storeKind
+	if t.Chance(1, 3) {
+		kind = t.Intn(nStoreKinds)
+		store = w.newStore(kind)
+	}
+	lock := redis.NewRedisLock(store, old.k.name)
+	// no scheduling point between taking the index and the append (constructors may yield)
+	cl := &client{idx: len(w.cls), k: old.k, store: store, storeKind: kind, lock: lock}
+	w.cls = append(w.cls, cl)
+	r.Probe("instance-replaced")
+	if old.holdActive {
+		r.Probe("instance-abandoned-while-holding")
+	}
+	r.Ev("replace", int64(old.idx), int64(cl.idx))
+	w.note(old, "abandoned, the task continues with new instance %d", cl.idx)
+	return cl
+}
+
 func (w *world) clientMain(cl *client, steps int) {
 	t, r := w.r.Tape, w.r
-	w.byTask[r.CurrentID()] = cl
+	task := r.CurrentID()
+	w.byTask[task] = cl
 	if t.Bool() {
 		w.setExpire(cl)
 	}
 	for s := 0; s < steps; s++ {
 		w.think(cl)
-		switch weighted(t, 6, 2, 2) {
+		switch weighted(t, 6, 2, 2, 1) {
 		case 0:
 			ok, err, inv, L := w.acquire(cl)
-			if ok && err == nil {
-				if t.Chance(1, 4) {
-					// refresh by the holder, possibly with another lease length, possibly at the boundary
-					if t.Bool() {
-						w.setExpire(cl)
+			// heartbeat: the holder re-acquires 0-4 times, possibly with another lease length,
+			// possibly at a landmark of its lease
+			done := 0
+			for n := weighted(t, 9, 3, 1, 1, 1); n > 0 && ok && err == nil; n-- {
+				if t.Bool() {
+					w.setExpire(cl)
+				}
+				w.think(cl)
+				ok, err, inv, L = w.acquire(cl)
+				if ok && err == nil {
+					if done++; done == 2 {
+						r.Probe("re-acquire-chain-of-2-or-more")
 					}
-					w.think(cl)
-					ok, err, inv, L = w.acquire(cl)
 				}
 			}
 			if ok && err == nil {
@@ -699,18 +929,61 @@ func (w *world) clientMain(cl *client, steps int) {
 			}
 		case 1:
 			w.release(cl)
-		default:
+		case 2:
 			w.setExpire(cl)
+		default:
+			if len(w.cls) < maxInstances {
+				// (the bound may be passed by the few tasks that are inside replace at once)
+				cl = w.replace(cl)
+				w.byTask[task] = cl
+			}
 		}
 	}
 }
+
+// keySpellings: pairs of keys that are different keys for Redis but close to each other.  0 =
+// plain.
+var keySpellings = [][2]string{
+	{"lock-k0", "lock-k1"},
+	{"Lock-K", "lock-k"},
+	{"lock-k", "lock-k "},
+	{" lock-k", "lock-k"},
+	{"lock", "lock:1"},
+	{"{user:1}:lock", "{user:1}:lock:b"},
+	{strings.Repeat("k", 300) + "a", strings.Repeat("k", 300) + "b"},
+	{"\u9501-\u03b1", "\u9501-\u03b2"},
+	{"lock\r\nk", "lock\nk"},
+	{"", "0"},
+	{"lock*", "lock?"},
+	{"lock-k\x00", "lock-k"},
+	{"lock-k\t", "lock-k"},
+	{strings.Repeat("lock/", 13) + "x", strings.Repeat("lock/", 13) + "y"},
+}
+
+var errReplies = []string{
+	"ERR injected server error",
+	"LOADING Redis is loading the dataset in memory",
+	"BUSY Redis is busy running a script. You can only call SCRIPT KILL or SHUTDOWN NOSAVE.",
+	"OOM command not allowed when used memory > 'maxmemory'.",
+	"READONLY You can't write against a read only replica.",
+	"NOSCRIPT No matching script. Please use EVAL.",
+	"MISCONF Redis is configured to save RDB snapshots, but it's currently not able to persist on disk.",
+	"TRYAGAIN Multiple keys request during rehashing of slot",
+	"CLUSTERDOWN The cluster is down",
+	"MOVED 3999 127.0.0.1:6381",
+	"NOAUTH Authentication required.",
+	"ERR max number of clients reached",
+	"WRONGTYPE Operation against a key holding the wrong kind of value",
+}
+
+const nStoreKinds = 5
 
 func body(r *simrt.Run, tier string) {
 	t := r.Tape
 	w := &world{r: r, byTask: map[int]*client{}}
 	srv := simredis.New(r)
 	w.srv = srv
-	nInst := t.Range(2, 4)
+	nInst := []int{1, 2, 2, 2, 3, 3, 4, 4, 5, 6}[t.Intn(10)]
 	nKeys := t.Range(1, 2)
 	maxSteps := 5
 	if tier == "thorough" {
@@ -718,6 +991,11 @@ func body(r *simrt.Run, tier string) {
 	}
 	w.faulty = t.Bool()
 	w.overstay = t.Chance(1, 3)
+	w.wide = t.Chance(1, 3)
+	spelling := 0
+	if t.Bool() {
+		spelling = t.Intn(len(keySpellings))
+	}
 	enabled := true
 	outages := 0
 	var rates simredis.Rates
@@ -732,17 +1010,28 @@ func body(r *simrt.Run, tier string) {
 	// the threshold depends on GOMAXPROCS, so runs would not be reproducible across processes.
 	const maxRefused = 5
 	down, refused, dialRate := false, 0, 0
+	srv.Fault = func(c *simredis.Cmd) simredis.Fault {
+		w.onSend(c)
+		return simredis.Fault{}
+	}
 	if w.faulty {
 		lvl := func() int { return []int{0, 15, 50, 120}[t.Intn(4)] }
 		rates = simredis.Rates{DropReply: lvl(), DropRequest: lvl(), Latency: lvl(), ResetBefore: lvl(), ResetAfter: lvl(), Truncate: []int{0, 0, 15, 40}[t.Intn(4)],
 			MaxDelay: []time.Duration{50 * ms, 700 * ms, 4 * time.Second}[t.Intn(3)], Enabled: &enabled}
+		rates.ErrReply, rates.ErrMsgs = lvl(), errReplies
 		policy := simredis.Policy(r, rates)
 		srv.Fault = func(c *simredis.Cmd) simredis.Fault {
+			w.onSend(c)
 			if down && enabled {
 				r.Probe("outage-command-reset")
 				return simredis.Fault{Kind: simredis.ResetBefore}
 			}
-			return policy(c)
+			f := policy(c)
+			if f.Kind == simredis.ErrReply {
+				word, _, _ := strings.Cut(f.Msg, " ")
+				r.Probe("error-reply-" + word)
+			}
+			return f
 		}
 		if t.Chance(1, 3) {
 			outages = t.Range(1, 2)
@@ -764,26 +1053,71 @@ func body(r *simrt.Run, tier string) {
 	}
 	srv.OnExec = w.onExec
 	shared := redis.New(srv.Addr, redis.WithHook(srv.Hook()))
+	// store objects: every constructor of the redis package that takes the transport hook (they
+	// all end in the same go-redis client per address)
+	w.newStore = func(kind int) *redis.Redis {
+		conf := redis.RedisConf{Host: srv.Addr, Type: redis.NodeType, NonBlock: true}
+		switch kind {
+		case 1:
+			return redis.New(srv.Addr, redis.WithHook(srv.Hook()))
+		case 2:
+			r.Probe("store-from-NewRedis")
+			if s, err := redis.NewRedis(conf, redis.WithHook(srv.Hook())); err == nil {
+				return s
+			}
+			r.EngineError("c19: redis.NewRedis(non-blocking) failed")
+		case 3:
+			r.Probe("store-from-MustNewRedis")
+			return redis.MustNewRedis(conf, redis.WithHook(srv.Hook()))
+		case 4:
+			// the blocking form pings the server first; when the ping fails no store is returned
+			conf.NonBlock, conf.PingTimeout = false, time.Second
+			s, err := redis.NewRedis(conf, redis.WithHook(srv.Hook()))
+			if err == nil {
+				r.Probe("store-from-NewRedis-with-ping")
+				return s
+			}
+			r.Probe("store-ping-failed")
+			return redis.New(srv.Addr, redis.WithHook(srv.Hook()))
+		}
+		return shared
+	}
 	perInstanceStore := t.Bool()
 	for i := 0; i < nKeys; i++ {
-		w.keys = append(w.keys, &keyState{name: fmt.Sprintf("lock-k%d", i), holder: -1})
+		w.keys = append(w.keys, &keyState{name: keySpellings[spelling][i], label: fmt.Sprintf("key%d", i), holder: -1})
 	}
 	steps := make([]int, nInst)
 	for i := 0; i < nInst; i++ {
-		store := shared
+		store, kind := shared, 0
 		if perInstanceStore {
-			store = redis.New(srv.Addr, redis.WithHook(srv.Hook()))
+			kind = 1 + t.Intn(nStoreKinds-1)
+			store = w.newStore(kind)
 		}
 		k := w.keys[0] // the first two instances always compete for the same key
 		if i >= 2 {
 			k = w.keys[t.Intn(nKeys)]
 		}
-		cl := &client{idx: i, k: k, lock: redis.NewRedisLock(store, k.name)}
+		cl := &client{idx: i, k: k, store: store, storeKind: kind, lock: redis.NewRedisLock(store, k.name)}
 		w.cls = append(w.cls, cl)
 		steps[i] = t.Range(1, maxSteps)
 	}
+	if spelling > 0 {
+		r.Probe("key-spelling-not-plain")
+		for _, c := range w.cls {
+			if c.k != w.keys[0] {
+				r.Probe("instances-on-two-keys-of-close-spelling")
+				break
+			}
+		}
+	}
+	switch {
+	case nInst == 1:
+		r.Probe("single-instance-run")
+	case nInst >= 5:
+		r.Probe("five-or-six-instances-run")
+	}
 	if r.Tracing() {
-		r.Logf("c19: instances=%d keys=%d steps=%v faulty=%v rates=%+v outages=%d dialRefusePerMille=%d overstay=%v perInstanceStore=%v", nInst, nKeys, steps, w.faulty, rates, outages, dialRate, w.overstay, perInstanceStore)
+		r.Logf("c19: instances=%d keys=%d (%s, %s) steps=%v faulty=%v rates=%+v outages=%d dialRefusePerMille=%d overstay=%v wide=%v perInstanceStore=%v", nInst, nKeys, show(keySpellings[spelling][0]), show(keySpellings[spelling][1]), steps, w.faulty, rates, outages, dialRate, w.overstay, w.wide, perInstanceStore)
 	}
 	var tasks []*simrt.Task
 	for i, cl := range w.cls {
@@ -802,8 +1136,14 @@ func body(r *simrt.Run, tier string) {
 			}
 		})
 	}
-	if !r.JoinTimeout(3*time.Hour, tasks...) {
-		r.Fail("stuck", "lock clients did not return within 3h of virtual time: %v", r.AliveTasks())
+	// every step of a client takes a bounded number of calls, retries and think times; the think
+	// times and critical sections are bounded by the longest lease configured in the run
+	patience := 3 * time.Hour
+	if w.wide {
+		patience = 40 * 365 * 24 * time.Hour
+	}
+	if !r.JoinTimeout(patience, tasks...) {
+		r.Fail("stuck", "lock clients did not return within %v of virtual time: %v", patience, r.AliveTasks())
 		return
 	}
 	if outTask != nil {
@@ -857,10 +1197,15 @@ func body(r *simrt.Run, tier string) {
 	if nA > 0 {
 		r.Probe("nontrivial")
 	}
-	r.Sample(map[string]any{"instances": nInst, "keys": nKeys, "steps_per_client": steps, "faulty": w.faulty, "clients_overstay_lease": w.overstay,
+	r.Sample(map[string]any{"instances": nInst, "instances_incl_replacements": len(w.cls), "keys": nKeys, "key_spelling": spelling, "longest_seconds_configured": w.maxSec, "wide": w.wide, "steps_per_client": steps, "faulty": w.faulty, "clients_overstay_lease": w.overstay,
 		"acquires": nA, "releases": nR, "server_executions": srv.Executed(), "faults_fired": srv.FiredMap(), "history_head": w.log})
 }
 
 func TestSim(t *testing.T) {
-	simharness.Main(t, &simharness.Spec{ID: "C19", Body: body, CrashIsViolation: true})
+	simharness.Main(t, &simharness.Spec{ID: "C19", Body: body, CrashIsViolation: true, Config: func(t *simrt.Tape, tier string) simrt.Config {
+		c := simharness.DefaultConfig(t, tier)
+		// leases of up to 10^7 s (115 days) are advanced over several times in one run
+		c.MaxVirtual = 100 * 365 * 24 * time.Hour
+		return c
+	}})
 }
